@@ -174,3 +174,16 @@ package eval
 //@   requires wfP(p)
 //@   eosexit
 //@   inline 8 2
+
+//@ # ---- C01: method definitions cut off by the end of the file ----
+//@ func (*ti/eval.Def).getMethodNameAndSetIsStatic
+//@   requires wfP(p) && p != nil && ctx != nil
+//@   safe nil,idx,slice
+//@   inline 8 2
+//@   witness nil#4 "def x.y"
+
+//@ func (*ti/eval.Def).Evaluation
+//@   requires wfP(p) && p != nil && e != nil
+//@   safe idx,slice
+//@   inline 2 1
+//@   witness idx#0 "def"
